@@ -15,3 +15,4 @@ import TlxVerif.Props.C01
 #print axioms TlxVerif.C01.erase_iter_refines_partial
 #print axioms TlxVerif.C01.copy_assign_refine
 #print axioms TlxVerif.C01.eraseTop_ok
+#print axioms TlxVerif.C01.history_refines
